@@ -47,8 +47,14 @@ def check(repo: Repo, rep: Report) -> None:
                                           "kind and otherwise pass the terminal through.")
         rel, d = key.split("::")
         root = repo.fn(rel, d)
-        action = root.child("action")
-        rep.require(action is not None, f"action in {root.ref}")
+        # the advancing action = what subscribe schedules as its initial step
+        action = None
+        for s0 in sites(root):
+            if is_schedule_call(s0.node):
+                t0 = resolve_callable(root, schedule_action_arg(s0.node))
+                if t0.kind == "fn" and t0.fn.parent is root:
+                    action = t0.fn
+        rep.require(action is not None, f"initial scheduled step in {root.ref}")
         # every schedule of `action` and where it is
         sched = []
         for g in root.walk():
